@@ -66,7 +66,14 @@ pub fn base_workspaces() -> Vec<(String, Workspace)> {
             is_local: true,
         }],
     };
-    vec![("w1".into(), w1), ("w2".into(), w2), ("w3".into(), w3), ("w4".into(), w4)]
+    // non-ASCII text in comments and strings, the last character of the file is multi-byte
+    let w5 = Workspace {
+        packages: vec![
+            WsPackage { name: "app".into(), files: vec![WsFile { rel: "src/uni.gleam".into(), text: base("w5_unicode.gleam") }], deps: vec![1], is_local: true },
+            WsPackage { name: "gleam_stdlib".into(), files: vec![WsFile { rel: "src/gleam/io.gleam".into(), text: "pub fn println(s: String) -> Nil {\n  Nil\n}\n".into() }], deps: vec![], is_local: false },
+        ],
+    };
+    vec![("w1".into(), w1), ("w2".into(), w2), ("w3".into(), w3), ("w4".into(), w4), ("w5".into(), w5)]
 }
 
 /// Hand-written pathological workspaces (each a known risk shape).
@@ -86,6 +93,7 @@ pub fn pathological() -> Vec<(String, Workspace)> {
         s("duplicate-import", &[("a", "import b\nimport b\nimport b as c\npub fn f() { b.g() c.g() }"), ("b", "pub fn g() { 1 }")]),
         s("private-import", &[("a", "import b.{g, type T, K}\npub fn f(t: T) { g() K }"), ("b", "fn g() { 1 }\ntype T { K }")]),
         s("duplicate-defs", &[("m", "fn f() { 1 }\nfn f() { \"s\" }\ntype T { A }\ntype T { A }\nconst c = 1\nconst c = 2\nfn g() { f() c A }")]),
+        s("duplicate-type-visibility", &[("a", "import m.{type S, type L}\npub fn g(x: S, y: L) { #(x, y) }"), ("m", "pub type S { A }\ntype S\npub fn f(s: S) { s }\ntype L = Int\npub type L = Float\npub fn h(l: L) { l }")]),
         s("duplicate-params", &[("m", "fn f(a, a, l a: Int, l b: Int) { a + b }\nfn g() { f(1, 2, l: 3, l: 4) }")]),
         s("alias-cycle", &[("m", "type A = B\ntype B = A\ntype C = C\nfn f(x: A, y: C) { x }")]),
         s("alias-generic", &[("m", "type A(t) = List(t)\nfn f(x: A(Int), y: A) { x }")]),
@@ -163,6 +171,8 @@ pub fn variants_of(name: &str, ws: &Workspace, pkg: usize, file: usize, tier: Ti
         for &b in &bounds {
             let c = text[b..].chars().next().unwrap();
             push(format!("delete char at {b}"), format!("{}{}", &text[..b], &text[b + c.len_utf8()..]), b);
+            // every prefix of the file (the text while it is being typed)
+            push(format!("prefix of {} bytes", b + c.len_utf8()), text[..b + c.len_utf8()].to_string(), b);
             if tier == Tier::Thorough {
                 for ch in ["\"", "/", "😀", "\n", "0", "_", "A", ".", "-", "<"] {
                     push(format!("insert char {ch:?} at {b}"), format!("{}{ch}{}", &text[..b], &text[b..]), b);
@@ -507,7 +517,7 @@ fn all_variants(which: Which, tier: Tier) -> Vec<Variant> {
         all.push(Variant { desc: format!("{name}: unchanged"), ws: ws.clone(), pkg: 0, file: 0, focus: 0 });
         for (pi, p) in ws.packages.iter().enumerate() {
             for fi in 0..p.files.len() {
-                let chars = which == Which::C10 && (tier == Tier::Thorough || (name == "w3"));
+                let chars = (which == Which::C10 && (tier == Tier::Thorough || (name == "w3"))) || (name == "w5" && pi == 0);
                 all.extend(variants_of(name, ws, pi, fi, tier, chars));
             }
         }
